@@ -59,13 +59,16 @@ Inductive pop :=
 | PSetCounter (id : nat) (v : N)
 | PDrop (id : nat)
 | PQuery (id : nat)
-| PLast (id : nat) (src : nat) (kind : N) (n : nat).   (* deliver the n-th last datagram of that source and kind *)
+| PLast (id : nat) (src : nat) (kind : N) (n : nat)
+| PSealLog
+| PStale (id : nat) (k : nat) (cut : nat).        (* datagram k cut to `cut` bytes, received into a buffer that still holds datagram k behind it *)                                        (* harness: seal log of the real run (no model counterpart: random start counters) *)   (* deliver the n-th last datagram of that source and kind *)
 
 Inductive pout :=
 | ONone                                   (* "-" *)
 | OOk (w : wire)                          (* ok + emitted datagram *)
 | ORes (r : res msg_result) (w : option wire)
-| OQuery (p : peer_crypto).
+| OQuery (p : peer_crypto)
+| OSealLog.
 
 (* every datagram produced so far with its producer and kind: 0 = init, 1 = rotation, 2 = data, 3 = empty *)
 Record pst := { objs : list (nat * peer_crypto); psent : list (nat * N * wire) }.
@@ -151,6 +154,18 @@ Definition pstep (payload_ok : bytes -> bool) (s : pst) (o : pop) : pst * pout :
   | PDrop id => (emit s (del_obj (objs s) id) None, ONone)
   | PQuery id =>
       match get_obj (objs s) id with None => (s, ONone) | Some p => (s, OQuery p) end
+  | PSealLog => (s, OSealLog)
+  | PStale id k cut =>
+      (* the handshake parser is given MsgBuffer::buffer(), i.e. the datagram AND the stale bytes behind it (finding F11):
+         for an init datagram the view is the complete message again; everything else is parsed from message() *)
+      match nth_wire s k with
+      | None => (s, ONone)
+      | Some w => if Nat.eqb cut 0 then deliver_wire payload_ok s id WEmpty
+                  else match w with
+                       | WInit _ => deliver_wire payload_ok s id w
+                       | _ => deliver_wire payload_ok s id (wire_trunc w cut)
+                       end
+      end
   | PLast id src kind n =>
       match last_of s src kind n with Some w => deliver_wire payload_ok s id w | None => (s, ONone) end
   end.
